@@ -532,7 +532,7 @@ def run_session(env, case):
 
 
 TESTS = [
-    Test("session", session_case, run_session, quick=1200, thorough=20000, max_workers=8,
+    Test("session", session_case, run_session, quick=4000, thorough=40000, max_workers=12,
          must_cover=["offset:odd", "offset:even", "R_inf_G", "xonly_on_odd", "gacc_neg_final", "counter_hi", "second_key_late", "dup_keys", "adaptor", "parity0", "parity1",
                      "inf:first", "inf:second", "inf:both", "aggnonce_R1_inf", "aggnonce_R2_inf", "opt_absent:seckey", "opt_absent:msg", "opt_absent:cache",
                      "opt_absent:extra", "nonce_cache_after_tweak", "nonce_before_keyagg", "sorted", "adapted_valid_parity0", "adapted_valid_parity1",
